@@ -869,6 +869,36 @@ func (u *Unit) mergeVals(conds []*Term, vals []Val) Val {
 	if same {
 		return vals[0]
 	}
+	// different functions meeting at a join: the value becomes a function term
+	// (identified by fnstatic), so that a later call can be dispatched
+	hasFn := false
+	for _, v := range vals {
+		switch f := v.(type) {
+		case *FnVal:
+			hasFn = true
+		case *ClosureVal:
+			if len(f.Bindings) == 0 {
+				hasFn = true
+			}
+		}
+	}
+	if hasFn {
+		nv := make([]Val, len(vals))
+		for i, v := range vals {
+			switch f := v.(type) {
+			case *FnVal:
+				nv[i] = u.reifyFn(f)
+			case *ClosureVal:
+				if len(f.Bindings) != 0 {
+					unsupp("merge of a capturing closure with another function value")
+				}
+				nv[i] = u.reifyFn(f)
+			default:
+				nv[i] = v
+			}
+		}
+		vals = nv
+	}
 	switch v0 := vals[0].(type) {
 	case *Term:
 		acc, ok := vals[len(vals)-1].(*Term)
